@@ -32,7 +32,12 @@ enum { A_SKIP = 0, A_BODY = 1, A_DESCEND = 2, A_ABORT = 3 };
 static const char ACT_LETTER[4] = {'S', 'B', 'D', 'A'};
 static const char *NAMES[3] = {"a", "ab", "b"};
 static const int ATTRC[4] = {0, 1, 2, 10};
-static const char *PREAMBLE[3] = {"", "<?xml?>", "<!D><?x?>"};
+/* 0..2: the three preambles every section uses; 3..: white space / line breaks before, between and after the statements
+ * and longer statement lists, used by section preshape (added after a seeded change that measured a statement's length
+ * from a stale cursor: invisible unless MORE bytes precede a statement than follow it before the root) */
+#define NPRE 14
+static const char *PREAMBLE[NPRE] = {"", "<?xml?>", "<!D><?x?>", "<?xml?>\n", "\n<?xml?>", " <?xml?><!D>", "<?xml?>\n<!D>\n", "<?xml?>\n<!D>",
+                                     "\r\n<?xml?>\r\n<!D>\r\n", "<!D>\n\n<?x?>", "  \n  ", "<?x?><?y?><!D>", "\n\n\n<!D>", "<?xml version=\"1.0\" encoding=\"UTF-8\"?>\n<!DOCTYPE a>"};
 #define CB_ERROR AWS_ERROR_INVALID_INDEX /* the error the aborting callback raises */
 
 struct tcase {
@@ -693,6 +698,41 @@ static void full3_eval(uint64_t idx, void *ctx) {
     run_case(&tc, idx == 0 || idx == F3_total / 2 + 12345);
 }
 
+
+/* ------------------------------------------------------------------ section preshape ---------------------- */
+/* every tree of <= 2 elements (names x attribute counts x text x program) under each of the NPRE preamble shapes */
+static uint64_t *PS_base;
+static int PS_n;
+static uint64_t PS_total;
+static void preshape_setup(void) {
+    PS_n = PR_first_of_n[3];
+    PS_base = (uint64_t *)malloc(sizeof(uint64_t) * (size_t)(PS_n + 1));
+    uint64_t t = 0;
+    for (int e = 0; e < PS_n; ++e) {
+        PS_base[e] = t;
+        t += bee_pow(36, (unsigned)SH[PR[e].shape].n) * NPRE;
+    }
+    PS_base[PS_n] = t;
+    PS_total = t;
+}
+static uint64_t preshape_total(void) { return PS_total; }
+static void preshape_eval(uint64_t idx, void *ctx) {
+    (void)ctx;
+    BEE_ITEM(idx);
+    int e = find_entry(PS_base, PS_n, idx);
+    uint64_t x = idx - PS_base[e];
+    struct tcase tc;
+    tc_shape_prog(&tc, "tree", &PR[e]);
+    tc.preamble = (int)bee_digit(&x, NPRE);
+    for (int i = 0; i < tc.n; ++i) {
+        tc_name(&tc, i, NAMES[bee_digit(&x, 3)]);
+        tc.nattr[i] = ATTRC[bee_digit(&x, 4)];
+        tc.text[i] = (int)bee_digit(&x, 3);
+    }
+    V_COUNT("preamble_shapes_cases", 1);
+    run_case(&tc, idx == PS_total / 3);
+}
+
 /* ------------------------------------------------------------------ section pat (4 and 5 elements) -------- */
 static uint64_t *PT_base;
 static int PT_first, PT_n;
@@ -840,6 +880,7 @@ int main(int argc, char **argv) {
     gen_shapes(v_thorough() ? 5 : 4, 4);
     gen_programs();
     full3_setup();
+    preshape_setup();
     pat_setup();
     struct tcase tmp;
     LIM_total = limits_case(UINT64_MAX, &tmp);
@@ -852,6 +893,7 @@ int main(int argc, char **argv) {
         v_out("INFO tree-x-names-x-program triples=%" PRIu64, core);
     }
     bee_register("full3", full3_total, full3_eval, 20);
+    bee_register("preshape", preshape_total, preshape_eval, 20);
     bee_register("pat", pat_total, pat_eval, 20);
     bee_register("limits", limits_total, limits_eval, 20);
     return bee_main(argc, argv);
